@@ -97,6 +97,7 @@ impl Session {
             }
         });
         let (itx, rx) = std::sync::mpsc::channel::<Incoming>();
+        let reply_tx = tx.clone();
         rt.spawn(async move {
             let mut seq = 0u64;
             let mut buf: Vec<u8> = Vec::new();
@@ -114,6 +115,11 @@ impl Session {
                     buf.drain(..hend + 4 + len);
                     if let Ok(v) = serde_json::from_slice::<Value>(&body) {
                         seq += 1;
+                        if v.get("method").is_some() && v.get("id").is_some() {
+                            // a request of the server to its client: a well-behaved editor answers at once
+                            let body = json!({"jsonrpc": "2.0", "id": v["id"], "result": Value::Null}).to_string();
+                            let _ = reply_tx.send(format!("Content-Length: {}\r\n\r\n{}", body.len(), body).into_bytes());
+                        }
                         let msg = if v.get("method").is_some() {
                             Incoming::Notification { method: v["method"].as_str().unwrap_or("").to_string(), params: v["params"].clone(), seq }
                         } else {
@@ -133,7 +139,43 @@ impl Session {
                 }
             }
         });
-        Session { dir, rt: Some(rt), tx, rx, next_id: 1, responses: BTreeMap::new(), notifications: Vec::new(), closed: false, sent: Vec::new() }
+        let mut s = Session { dir, rt: Some(rt), tx, rx, next_id: 1, responses: BTreeMap::new(), notifications: Vec::new(), closed: false, sent: Vec::new() };
+        // the handshake of a capable editor (dynamic registration, refresh requests, ... all announced)
+        let id = s.request(
+            "initialize",
+            json!({
+                "processId": Value::Null,
+                "rootUri": Value::Null,
+                "capabilities": {
+                    "workspace": {
+                        "applyEdit": true,
+                        "workspaceFolders": true,
+                        "configuration": true,
+                        "inlayHint": {"refreshSupport": true},
+                        "semanticTokens": {"refreshSupport": true},
+                        "codeLens": {"refreshSupport": true},
+                        "diagnostics": {"refreshSupport": true},
+                        "didChangeWatchedFiles": {"dynamicRegistration": true}
+                    },
+                    "textDocument": {
+                        "synchronization": {"dynamicRegistration": true, "didSave": true},
+                        "publishDiagnostics": {"relatedInformation": true, "versionSupport": true},
+                        "completion": {"completionItem": {"snippetSupport": true}},
+                        "hover": {"contentFormat": ["markdown", "plaintext"]},
+                        "definition": {"linkSupport": true},
+                        "documentSymbol": {"hierarchicalDocumentSymbolSupport": true},
+                        "inlayHint": {"dynamicRegistration": true},
+                        "foldingRange": {"lineFoldingOnly": true}
+                    },
+                    "window": {"workDoneProgress": true, "showMessage": {}},
+                    "general": {"positionEncodings": ["utf-16"]}
+                }
+            }),
+        );
+        let _ = s.wait_response(id, WATCHDOG);
+        s.notify("initialized", json!({}));
+        s.sent.clear();
+        s
     }
 
     pub fn path(&self, rel: &str) -> PathBuf {
